@@ -1,12 +1,115 @@
 (** C01 — Cell ids form a consistent, invertible quadtree along the Hilbert curve.
-    Only statements; every proof is [exact] of a lemma in Proofs/. The functions named
-    s2_* are the Gallina translations regenerated from /repo on every run (Gen.CellIDFull);
-    s2_lookupPos/s2_lookupIJ are initLookupCell re-executed over the translated literal tables. *)
-From Coq Require Import ZArith List Bool.
-From Geo Require Import Base.GoPrim Gen.CellIDFull Model.CellIDTables Proofs.C01_Tables.
+    Only statements; every proof is [exact] of a lemma in Proofs/.  The functions named
+    s2_* are the Gallina translations regenerated from /repo on every run (Gen.CellIDFull,
+    Gen.StUV); s2_lookupPos/s2_lookupIJ are initLookupCell re-executed over the translated
+    literal tables (Model.CellIDTables).  [rep c f l k] is
+      0<=f<6 /\ 0<=l<=30 /\ 0<=k<4^l /\ c = f*2^61 + (2k+1)*4^(30-l). *)
+From Coq Require Import ZArith List Bool Floats.
+From Geo Require Import Base.GoPrim Gen.CellIDFull Model.CellIDTables
+  Proofs.C01_Tables Proofs.C01_Algebra Proofs.C01_IJ Proofs.C01_Point.
+(* the hand models compared with Go by the observer (built with this file: one make target) *)
+From Geo Require Model.CellIDNbr Model.CellIDText Model.C01Obs.
+Import ListNotations.
 Local Open Scope Z_scope.
+
+(** ids: validity and closed forms ------------------------------------------ *)
+Theorem c01_valid_char : forall c, 0 <= c < 2 ^ 64 ->
+  (s2_CellID_IsValid c = true <->
+   exists f l k, 0 <= f < 6 /\ 0 <= l <= 30 /\ 0 <= k < 4 ^ l /\ c = f * 2 ^ 61 + (2 * k + 1) * 4 ^ (30 - l)).
+Proof. exact valid_char. Qed.
+Print Assumptions c01_valid_char.
+
+Theorem c01_closed_forms : forall c f l k, rep c f l k ->
+  s2_CellID_Level c = l /\ s2_CellID_Face c = f /\ s2_CellID_lsb c = 4 ^ (30 - l) /\
+  s2_CellID_Pos c = (2 * k + 1) * 4 ^ (30 - l) /\
+  s2_CellID_RangeMin c = c - (4 ^ (30 - l) - 1) /\ s2_CellID_RangeMax c = c + (4 ^ (30 - l) - 1) /\
+  (s2_CellID_IsLeaf c = true <-> l = 30).
+Proof.
+  intros c f l k H. repeat split.
+  - exact (Level_rep c f l k H). - exact (Face_rep c f l k H). - exact (lsb_rep c f l k H).
+  - exact (Pos_rep c f l k H). - exact (RangeMin_rep c f l k H). - exact (RangeMax_rep c f l k H).
+  - apply (IsLeaf_rep c f l k H). - apply (IsLeaf_rep c f l k H).
+Qed.
+Print Assumptions c01_closed_forms.
+
+Theorem c01_representation_unique : forall c f l k f' l' k',
+  rep c f l k -> rep c f' l' k' -> f = f' /\ l = l' /\ k = k'.
+Proof. exact rep_unique. Qed.
+Print Assumptions c01_representation_unique.
+
+(** parent / child ---------------------------------------------------------- *)
+Theorem c01_parent_valid_and_contains : forall c f l k l', rep c f l k -> 0 <= l' <= l ->
+  rep (s2_CellID_Parent c l') f l' (k / 4 ^ (l - l')) /\
+  s2_CellID_Contains (s2_CellID_Parent c l') c = true.
+Proof. intros c f l k l' H Hl. split; [exact (Parent_rep c f l k l' H Hl)|exact (Parent_contains c f l k l' H Hl)]. Qed.
+Print Assumptions c01_parent_valid_and_contains.
+
+Theorem c01_children_partition : forall c f l k, rep c f l k -> l < 30 ->
+  exists c0 c1 c2 c3, s2_CellID_Children c = [c0; c1; c2; c3] /\
+    rep c0 f (l + 1) (4 * k) /\ rep c1 f (l + 1) (4 * k + 1) /\
+    rep c2 f (l + 1) (4 * k + 2) /\ rep c3 f (l + 1) (4 * k + 3) /\
+    s2_CellID_Parent c0 l = c /\ s2_CellID_Parent c1 l = c /\
+    s2_CellID_Parent c2 l = c /\ s2_CellID_Parent c3 l = c /\
+    c0 < c1 < c2 /\ c2 < c3 /\
+    s2_CellID_RangeMin c0 = s2_CellID_RangeMin c /\
+    s2_CellID_RangeMax c0 + 2 = s2_CellID_RangeMin c1 /\
+    s2_CellID_RangeMax c1 + 2 = s2_CellID_RangeMin c2 /\
+    s2_CellID_RangeMax c2 + 2 = s2_CellID_RangeMin c3 /\
+    s2_CellID_RangeMax c3 = s2_CellID_RangeMax c.
+Proof. exact parent_child. Qed.
+Print Assumptions c01_children_partition.
+
+(** containment is laminar --------------------------------------------------- *)
+Theorem c01_contains_is_range_inclusion : forall a f l k x, rep a f l k -> 0 <= x < 2 ^ 64 ->
+  (s2_CellID_Contains a x = true <-> s2_CellID_RangeMin a <= x <= s2_CellID_RangeMax a).
+Proof.
+  intros a f l k x H Hx. rewrite (RangeMin_rep a f l k H), (RangeMax_rep a f l k H).
+  exact (Contains_spec a f l k x H Hx).
+Qed.
+Print Assumptions c01_contains_is_range_inclusion.
+
+Theorem c01_contains_is_ancestor : forall a f l k b f' l' k', rep a f l k -> rep b f' l' k' ->
+  (s2_CellID_Contains a b = true <-> l <= l' /\ s2_CellID_Parent b l = a).
+Proof. exact Contains_iff_ancestor. Qed.
+Print Assumptions c01_contains_is_ancestor.
+
+Theorem c01_laminar : forall a f l k b f' l' k', rep a f l k -> rep b f' l' k' ->
+  (s2_CellID_Intersects a b = true <-> s2_CellID_Contains a b = true \/ s2_CellID_Contains b a = true).
+Proof. exact laminar. Qed.
+Print Assumptions c01_laminar.
+
+(** round trips --------------------------------------------------------------- *)
+Theorem c01_face_pos_level_roundtrip : forall c f l k, rep c f l k ->
+  s2_CellIDFromFacePosLevel (s2_CellID_Face c) (s2_CellID_Pos c) (s2_CellID_Level c) = c.
+Proof. exact FromFacePosLevel_roundtrip. Qed.
+Print Assumptions c01_face_pos_level_roundtrip.
 
 Theorem c01_lookup_tables_mutually_inverse : forall k, 0 <= k < 1024 ->
   pos_ij_inverse_at k = true /\ ij_pos_inverse_at k = true.
 Proof. exact lookup_tables_inverse. Qed.
 Print Assumptions c01_lookup_tables_mutually_inverse.
+
+Theorem c01_face_ij_roundtrip : forall f i j, 0 <= f < 6 -> 0 <= i < 2 ^ 30 -> 0 <= j < 2 ^ 30 ->
+  exists o k, 0 <= o < 4 /\ rep (s2_cellIDFromFaceIJ f i j) f 30 k /\
+    s2_CellID_faceIJOrientation (s2_cellIDFromFaceIJ f i j) = (f, i, j, o).
+Proof. exact ij_roundtrip. Qed.
+Print Assumptions c01_face_ij_roundtrip.
+
+(** along the curve ----------------------------------------------------------- *)
+Theorem c01_next_wrap_is_index_plus_one : forall c f l k, rep c f l k ->
+  let i := (index f l k + 1) mod (6 * 4 ^ l) in
+  rep (s2_CellID_NextWrap c) (i / 4 ^ l) l (i mod 4 ^ l) /\
+  s2_CellID_PrevWrap (s2_CellID_NextWrap c) = c.
+Proof. intros c f l k H. split; [exact (NextWrap_rep c f l k H)|exact (PrevWrap_NextWrap c f l k H)]. Qed.
+Print Assumptions c01_next_wrap_is_index_plus_one.
+
+(** points -------------------------------------------------------------------- *)
+Theorem c01_point_leaf_is_valid : forall p, exists f k, 0 <= f < 6 /\ rep (s2_cellIDFromPoint p) f 30 k /\
+  s2_CellID_IsValid (s2_cellIDFromPoint p) = true /\ s2_CellID_IsLeaf (s2_cellIDFromPoint p) = true /\
+  s2_CellID_Level (s2_cellIDFromPoint p) = 30.
+Proof. exact leaf_valid. Qed.
+Print Assumptions c01_point_leaf_is_valid.
+
+(** the premises are satisfiable *)
+Example c01_rep_example : rep 3458764513820540928 1 0 0 /\ rep 1 0 30 0 /\ rep 13835058055282163711 5 30 (4 ^ 30 - 1).
+Proof. repeat split; vm_compute; congruence. Qed.
